@@ -498,6 +498,9 @@ def _run(fn, cases, chk, pool, nontrivial_key):
     for case, (v, stats) in zip(cases, results):
         if isinstance(v, list):
             for clause, wc, what, obs, exp in v:
+                # ":multi-frame" marks a defect seen only in later frames; the same class already seen in a first frame is the same finding
+                if wc.endswith(":multi-frame") and f"bcc:{clause}:{wc[:-len(':multi-frame')]}" in chk._fail_keys:
+                    wc = wc[:-len(":multi-frame")]
                 chk.fail(clause, wc, what, case, observed=obs, expected=exp)
             if v:
                 continue
